@@ -39,6 +39,7 @@ def run(ctx, anchors=None):
     from . import common
     main = common.func_calling(fb, "btcdeb.cpp", "ContinueScript")
     cfg = main.cfg()
+    common.require_names(main, ["script_ptrs", "script_headers", "count", "tc_desc", "script_lines", "has_p2sh", "header"], "R12.1")
     # ---- R12.1
     pushes = [n for n in main.nodes() if n["k"] == "mcall" and n.get("n") == "push_back" and astq.estr(n.get("obj")) == "script_ptrs"]
     heads = [n for n in main.nodes() if n["k"] == "mcall" and n.get("n") == "push_back" and astq.estr(n.get("obj")) == "script_headers"]
